@@ -31,7 +31,8 @@ REGISTRY = {
             "containing '.' or '/' and absolute locales-dir are outside the model (counted as skipped). Trusted: Coq kernel + "
             "vm_compute, hand-written model Parser/Cfg.v, Python generator, Rust harness h_merge. No axioms.",
     "engine": "coq",
-    "packages": [("h_merge", "json"), ("h_merge", "yaml"), ("h_merge", "json5")],
+    "packages": [("h_merge", ("json",), "target_merge_json"), ("h_merge", ("yaml",), "target_merge_yaml"),
+                 ("h_merge", ("json5",), "target_merge_json5")],
 }
 PRE = ("From Coq Require Import List NArith Bool.\nImport ListNotations.\n"
        "From LI Require Import Base.StrOps Parser.Cfg Parser.CfgCheck.\nOpen Scope N_scope.\n")
@@ -231,6 +232,14 @@ def coq_raw(cfg):
 
 
 def coq_impl(line, malformed):
+    """total: an answer that cannot be read is POther (no spec accepts it)"""
+    try:
+        return coq_impl_inner(line, malformed)
+    except (ValueError, IndexError, KeyError, TypeError) as e:
+        return "POther", "unreadable:" + repr(e)[:60]
+
+
+def coq_impl_inner(line, malformed):
     u = mc.unesc
     if line == "PANIC":
         return "POther", "panic"
